@@ -16,7 +16,8 @@ LEVEL_TEXT = ("Coq theorems over an exact-rational model of the criterion famili
               "every family equals the contribution-vector formula at multiplicity/k, integer-count and binary-indicator vectors normalise "
               "to that contribution vector, values are invariant under permutations of the subset and under positive rescaling outside the "
               "|sum x| < 1e-10 guard, ||C c||^2 = c'(C'C)c, evalfn = weights x transformations of the latent vector, the declared nlatent is the "
-              "length of the latent vector; the allele-availability thresholds are modelled bit-exactly in binary64 (one correctly rounded "
+              "length of the latent vector, the usefulness-criterion latent vector is the contribution-weighted parental mean + intensity x sigma for any "
+              "contribution vector (a mean when the contributions sum to one, the plain mean when they are uniform, not the plain mean for a three-way cross); the allele-availability thresholds are modelled bit-exactly in binary64 (one correctly rounded "
               "division count/(ploidy*k)) and proved equal to the count-based definition for every selection of up to 2^53 chromosome copies "
               "and every target frequency in [0,1] (through Flocq); the former code (rounded reciprocal, tmajor computed with the tminor test) "
               "is refuted on separately named old_ definitions as a regression witness. The model is tied to the code by evaluating it inside "
@@ -31,7 +32,9 @@ LEVEL_NOTE = ("trusted: Coq kernel + vm_compute, PrimFloat primitives; BLAS/nump
 TECHNIQUE = "Coq proof over an executable rational/binary64 model; in-Coq vm_compute correspondence with the implementation; exact-rational predicate"
 RULE = ("case = (criterion family, candidate data on a dyadic grid, selected multiset s, listing permutation, positive scale a, free real / "
         "integer vectors, objective/constraint weights and transformation specs) evaluated on all encodings of that family, or "
-        "(population, taxon permutation, factory) for the factory clause, or the class-enumeration case; one PRNG; sizes n 1..8 (up to 206 for "
+        "(population, taxon permutation, factory) for the factory clause (the usefulness-criterion constructors from_pgmat_gpmod and from_pgmat_gpmod_xmap "
+        "with every variance-matrix factory of pybrops.model.vmat.fcty they accept — two-way, dihybrid, three-way, four-way — on parents with "
+        "distinct breeding values, contributions written down in the harness), or the class / variance-factory enumeration cases; one PRNG; sizes n 1..8 (up to 206 for "
         "the allele-frequency families so that ploidy*k hits 49, 98, 103, 107 where a rounded reciprocal is inexact), target frequencies incl. "
         "exactly 0 and 1, k 1..6 incl. repeated members, zero vectors, guard-region sums; "
         "non-trivial = at least two distinct members selected out of >= 3 candidates; distinct by SHA-256 of the case")
@@ -80,6 +83,53 @@ SKIPPED = {
     "RealLookAheadGeneralizedWeightedGenomicSelectionProblem": "latentfn simulates breeding cycles with the global numpy.random stream "
                                                                "(meiosis/mating are properties C01/C08); no closed-form definition to compare with",
 }
+
+# variance-matrix factories the usefulness-criterion constructors are driven with: class name (module of the same name in
+# pybrops.model.vmat.fcty) -> (number of parents, expected parental genome contributions in the column order of the cross map).
+# The contributions are WRITTEN DOWN HERE (pedigree arithmetic of a doubled-haploid line from the cross), never read from pybrops:
+#   two-way  A x B: half of each parent;  dihybrid: a two-parent cross as well;
+#   three-way (A x B) x R, cross-map / matrix axis order (recurrent R, female A, male B): R gives 1/2, A and B 1/4 each;
+#   four-way (A x B) x (C x D): a quarter each.
+UC_VMAT = {
+    "DenseTwoWayDHAdditiveGeneticVarianceMatrixFactory": (2, [0.5, 0.5]),
+    "DenseDihybridDHAdditiveGeneticVarianceMatrixFactory": (2, [0.5, 0.5]),
+    "DenseThreeWayDHAdditiveGeneticVarianceMatrixFactory": (3, [0.5, 0.25, 0.25]),
+    "DenseFourWayDHAdditiveGeneticVarianceMatrixFactory": (4, [0.25, 0.25, 0.25, 0.25]),
+}
+UC_VMAT_DEFAULT = "DenseTwoWayDHAdditiveGeneticVarianceMatrixFactory"
+# concrete factories of pybrops.model.vmat.fcty that the UC constructors do not accept on the unchanged tree (asserted on every run)
+UC_VMAT_SKIPPED = {
+    "DenseTwoWayDHAdditiveGenicVarianceMatrixFactory": ("TypeError", "a GenicVarianceMatrixFactory, not a GeneticVarianceMatrixFactory: both UC constructors reject it "
+                                                        "with TypeError ('vmatfcty' must be a GeneticVarianceMatrixFactory)"),
+}
+VP = "pybrops.model.vmat.fcty."
+
+def _vf_short(name):
+    return name.replace("Dense", "").replace("AdditiveGeneticVarianceMatrixFactory", "")
+
+def _vmat_factory(name):
+    import importlib
+    return getattr(importlib.import_module(VP + name), name)
+
+def enumerate_vmat_factories():
+    """all concrete classes defined in pybrops.model.vmat.fcty, by introspection"""
+    import pkgutil, importlib, inspect
+    import pybrops.model.vmat.fcty as PK
+    out = []
+    for m in pkgutil.iter_modules(PK.__path__):
+        mod = importlib.import_module(PK.__name__ + "." + m.name)
+        for nme, c in vars(mod).items():
+            if inspect.isclass(c) and c.__module__ == mod.__name__ and not getattr(c, "__abstractmethods__", ()) and hasattr(c, "from_gmod"):
+                out.append(nme)
+    return sorted(out)
+
+def _uc_xmap(case):
+    """the cross map a UC factory case must end up with: the given one, or every combination of taxa (without / with repeats), lexicographic"""
+    A = case["args"]; n = len(case["pop"]["labels"])
+    if case["which"] == "uc_xmap": return [list(r) for r in A["xmap"]]
+    npar = UC_VMAT[A.get("vf", UC_VMAT_DEFAULT)][0]
+    it = itertools.combinations(range(n), npar) if A["unique"] else itertools.combinations_with_replacement(range(n), npar)
+    return [list(v) for v in it]
 
 def family_classes(fam):
     mod, pat, _ = FAMILIES[fam]
@@ -646,16 +696,34 @@ def gen_pop(rng, homozygous=False, n=None):
 FACTORIES = ["ebv", "gebv_bvmat", "gebv_gmat", "gwgebv", "wgs", "ocs", "mgr", "meh", "l2", "l2w", "l1", "fam", "uc", "uc_xmap", "ohv", "opv", "gb",
              "pafd", "pau", "mogs", "embv", "rand", "wgebvmat", "embvmat"]
 
-def gen_factory(rng, which):
+def _distinct_bv(pop):
+    X, u, beta, gebv, f = pop_truth(pop)
+    return len({tuple(r) for r in gebv.tolist()}), len({r[0] for r in gebv.tolist()})
+
+def gen_factory(rng, which, vf=None):
     homo = which in ("embv", "embvmat")
     pop = gen_pop(rng, homozygous=homo)
+    if which in ("uc", "uc_xmap"):
+        # enough taxa for the cross, and parents whose breeding values differ (a contribution-weighted mean then differs from a plain mean)
+        vf = vf or rng.choice(sorted(UC_VMAT))
+        best = None
+        for _ in range(40):
+            cand = gen_pop(rng, n=rng.randint(max(3, UC_VMAT[vf][0]), 5))
+            sc = _distinct_bv(cand)
+            if best is None or sc > best[0]: best = (sc, cand)
+            if sc[1] == len(cand["labels"]): break
+        pop = best[1]
     n, p, t = len(pop["labels"]), len(pop["chrgrp"]), len(pop["beta"])
     args = {"unscale": rng.random() < 0.5, "phased": rng.random() < 0.5}
     if which == "gwgebv": args["alpha"] = rng.choice([0.0, 1.0, 2.0, 0.5])
     if which in ("uc", "uc_xmap", "ohv"):
         args.update(nparent=2, unique=rng.random() < 0.5, nprogeny=rng.choice([5, 10]), pct=rng.choice([0.1, 0.25, 0.5]))
+    if which in ("uc", "uc_xmap"):
+        args.update(vf=vf, nparent=UC_VMAT[vf][0])
     if which == "uc_xmap":
-        args["xmap"] = [[rng.randrange(n), rng.randrange(n)] for _ in range(rng.randint(1, 4))]
+        rows = [[rng.randrange(n) for _ in range(args["nparent"])] for _ in range(rng.randint(1, 4))]
+        rows.append(rng.sample(range(n), args["nparent"]))              # at least one cross of distinct parents, in no particular order
+        args["xmap"] = rows
     if which in ("ohv", "opv", "gb"):
         nchr = len(set(pop["chrgrp"]))
         args["nhaploblk"] = rng.randint(nchr, min(p, nchr + 2))
@@ -765,15 +833,19 @@ def run_factory(case):
                 if which == "fam":
                     pr = cls.from_bvmat(bv, **_space(enc, n)); return {"ebv": _arr(pr.ebv), "familyid": _arr(pr.familyid)}
                 if which in ("uc", "uc_xmap"):
-                    from pybrops.model.vmat.fcty.DenseTwoWayDHAdditiveGeneticVarianceMatrixFactory import DenseTwoWayDHAdditiveGeneticVarianceMatrixFactory as VF
                     from pybrops.popgen.gmap.HaldaneMapFunction import HaldaneMapFunction
-                    nx = len(A["xmap"]) if which == "uc_xmap" else (n * (n - 1) // 2 if A["unique"] else n * (n + 1) // 2)
+                    vfname = A.get("vf", UC_VMAT_DEFAULT)
+                    VF = _vmat_factory(vfname)
+                    xm = _uc_xmap(case)
+                    nx = len(xm)
                     if nx == 0: return {"skip": True}
-                    base = (2, 1, A["nprogeny"], 0, A["pct"], VF(), HaldaneMapFunction(), A["unique"], g, gmod)
+                    base = (UC_VMAT[vfname][0], 1, A["nprogeny"], 0, A["pct"], VF(), HaldaneMapFunction(), A["unique"], g, gmod)
                     if which == "uc": pr = cls.from_pgmat_gpmod(*base, **_space(enc, nx, nobj=t))
                     else: pr = cls.from_pgmat_gpmod_xmap(*base, numpy.array(A["xmap"], dtype=int), **_space(enc, nx, nobj=t))
+                    # progeny variances (property C12; trusted here), looked up by the harness at the expected cross configurations
                     vm = VF().from_gmod(gmod, g, 1, A["nprogeny"], 0, HaldaneMapFunction())
-                    return {"ucmat": _arr(pr.ucmat), "xmap": _arr(pr.decn_space_xmap), "vmat": _arr(vm.mat), "epgc": [float(v) for v in vm.epgc]}
+                    return {"ucmat": _arr(pr.ucmat), "xmap": _arr(pr.decn_space_xmap), "pvar": _arr(numpy.array([vm.mat[tuple(r)] for r in xm], dtype=float)),
+                            "epgc_lib": [float(v) for v in vm.epgc]}
                 if which == "ohv":
                     nx = n * (n - 1) // 2 if A["unique"] else n * (n + 1) // 2
                     if nx == 0: return {"skip": True}
@@ -894,12 +966,15 @@ def pred_factory(case, out):
             if o["familyid"] != pop["grp"]: bad.append("%s: familyid != taxa_grp in taxon order" % tag)
         elif which in ("uc", "uc_xmap"):
             import scipy.stats
-            xm = A["xmap"] if which == "uc_xmap" else [list(v) for v in (itertools.combinations(range(n), 2) if A["unique"] else itertools.combinations_with_replacement(range(n), 2))]
-            if o["xmap"] != xm: bad.append("%s: cross map != expected list of parent pairs" % tag); continue
+            vfname = A.get("vf", UC_VMAT_DEFAULT)
+            npar, contrib = UC_VMAT[vfname]                 # contributions as written down in this harness
+            xm = _uc_xmap(case)
+            if o["xmap"] != xm: bad.append("%s: cross map != expected list of parent tuples" % tag); continue
+            if o["epgc_lib"] != contrib: bad.append("%s: expected parental genome contributions of the variance matrix %s != %s" % (tag, o["epgc_lib"], contrib))
             si = scipy.stats.norm.pdf(scipy.stats.norm.ppf(1.0 - A["pct"])) / A["pct"]
-            vm = numpy.array(_unhex(o["vmat"]), dtype=float)
-            want = numpy.array([[0.5 * gebv[i, q] + 0.5 * gebv[j, q] + si * math.sqrt(max(vm[i, j, q], 0.0)) for q in range(t)] for i, j in xm])
-            chk("ucmat", want, "parental mean + intensity * sqrt(progeny variance) through the cross map", 2.0 ** -26)
+            pv = numpy.array(_unhex(o["pvar"]), dtype=float)
+            want = numpy.array([[sum(c * gebv[i, q] for c, i in zip(contrib, row)) + si * math.sqrt(max(pv[r, q], 0.0)) for q in range(t)] for r, row in enumerate(xm)])
+            chk("ucmat", want, "sum_i contribution_i * breeding value of parent i + intensity * sqrt(progeny variance) through the cross map (%s)" % _vf_short(vfname), 2.0 ** -26)
         elif which in ("ohv", "opv", "gb"):
             bnd = o["bounds"]
             if len(bnd) != A["nhaploblk"]: continue      # empty haplotype bins: fewer blocks than requested, trailing garbage (property C18's finding)
@@ -980,15 +1055,18 @@ def emit_factory(case, out):
         import scipy.stats
         si = float(scipy.stats.norm.pdf(scipy.stats.norm.ppf(1.0 - A["pct"])) / A["pct"])
         head += "let bv := gebv_def hap u %s %d %d %d in\n  " % (beta, n, p, t)
+        npar, contrib = UC_VMAT[A.get("vf", UC_VMAT_DEFAULT)]      # the contribution vector is an argument of the model, supplied from the harness table
+        xm = _uc_xmap(case)
         for o in out.values():
-            vm = _unhex(o["vmat"])
+            pv = _unhex(o["pvar"])
             rows = []
-            for got, pair in zip(o["ucmat"], o["xmap"]):
-                rows.append("uc_ok %s (uc_parts bv %s %s %s %d %s)" % (_qh(got), _ql(o["epgc"]), _q(si), _ql(vm[pair[0]][pair[1]]), t, E.lst(pair, E.nat)))
+            for got, parents, var in zip(o["ucmat"], xm, pv):
+                rows.append("uc_ok %s (uc_parts bv %s %s %s %d %s)" % (_qh(got), _ql(contrib), _q(si), _ql(var), t, E.lst(parents, E.nat)))
             parts.append("(" + " && ".join(rows) + ")")
-            if which == "uc":
+            parts.append("list_eqb natl_eqb %s %s" % (E.lst2(o["xmap"], E.nat), E.lst2(xm, E.nat)))
+            if which == "uc" and npar == 2:
                 parts.append("list_eqb natl_eqb %s (if %s then pairs_unique %d else pairs_any %d)" % (E.lst2(o["xmap"], E.nat), E.b(A["unique"]), n, n))
-            break                                      # the four encodings share one staticmethod; one evaluation in Coq is enough (all four are compared by the predicate)
+            if len(o["ucmat"]) != len(xm): parts.append("false")
     elif which in ("pafd", "pau", "mogs"):
         o = out["Subset"]
         parts = ["zll_eqb %s (map (fun i => map (fun j => dosage hap i j) (seq 0 %d)) (seq 0 %d))" % (E.lst2(o["geno"], E.z), p, n), "Z.eqb %s (Z.of_nat (length hap))" % E.z(o["ploidy"])]
@@ -1009,6 +1087,26 @@ def run_special(case):
         pr = cls(geno=numpy.array([[0, 1], [2, 1], [1, 1]], dtype="int8"), ploidy=2, mkrwt=numpy.ones((p, 1)), tfreq=numpy.full((p, 1), 0.5),
                  decn_space_xmap=numpy.array([[0, 1], [0, 2], [1, 2]]), **_space("Subset", n))
         return {"latent": _lat(pr, numpy.array([0, 1]))}
+    if k == "vmatfcty":
+        have = enumerate_vmat_factories()
+        rejected = {}
+        rng = __import__("random").Random(5)
+        pop = gen_pop(rng, n=4)
+        from pybrops.popgen.gmap.HaldaneMapFunction import HaldaneMapFunction
+        for nme in have:
+            if nme in UC_VMAT: continue
+            g, gmod, bv = build_pop(pop, True)
+            res = {}
+            for ctor in ("from_pgmat_gpmod", "from_pgmat_gpmod_xmap"):
+                def f():
+                    cls = _cls("uc", "Subset")
+                    base = (2, 1, 5, 0, 0.25, _vmat_factory(nme)(), HaldaneMapFunction(), True, g, gmod)
+                    if ctor == "from_pgmat_gpmod": cls.from_pgmat_gpmod(*base, **_space("Subset", 6, nobj=len(pop["beta"])))
+                    else: cls.from_pgmat_gpmod_xmap(*base, numpy.array([[0, 1], [2, 3]]), **_space("Subset", 2, nobj=len(pop["beta"])))
+                    return "accepted"
+                res[ctor] = _try(f)
+            rejected[nme] = res
+        return {"concrete": have, "rejected": rejected}
     if k == "nlatent":
         c = case["case"]
         pr = make_problem(c["fam"], "Subset", c["data"], len(c["s"]), c["eval"])
@@ -1027,6 +1125,19 @@ def pred_special(case, out):
             elif nme in mapped and mapped[nme] != mod: bad.append("class %s found in %s, expected %s" % (nme, mod, mapped[nme]))
         for nme in list(mapped) + list(SKIPPED):
             if nme not in have: bad.append("class %s of the family table no longer exists as a concrete class" % nme)
+        return bad[:8]
+    if k == "vmatfcty":
+        bad = []
+        for nme in out["concrete"]:
+            if nme not in UC_VMAT and nme not in UC_VMAT_SKIPPED:
+                bad.append("variance-matrix factory %s is neither driven through the usefulness-criterion constructors nor skipped with a reason" % nme)
+        for nme in list(UC_VMAT) + list(UC_VMAT_SKIPPED):
+            if nme not in out["concrete"]: bad.append("variance-matrix factory %s of the harness table no longer exists as a concrete class" % nme)
+        for nme, res in out["rejected"].items():
+            if nme not in UC_VMAT_SKIPPED: continue
+            for ctor, r in res.items():
+                if not (isinstance(r, dict) and r.get("exc") == UC_VMAT_SKIPPED[nme][0]):
+                    bad.append("UC %s no longer rejects %s with %s (got %r): drive it through the check" % (ctor, nme, UC_VMAT_SKIPPED[nme][0], r))
         return bad[:8]
     if k == "stub":
         o = out["latent"]
@@ -1084,12 +1195,12 @@ def describe(case, out):
         return {"kind": k, "family": case["fam"], "k": len(s) if len(s) <= 8 else "49+", "repeats": len(set(s)) < len(s),
                 "candidates": n if n <= 8 else "49+", "guard": case.get("guard", "-"), "obj_trans": case["eval"]["obj"][0][0], "ineq_trans": case["eval"]["ineq"][0][0]}
     if k == "factory":
-        return {"kind": k, "factory": case["which"], "ntaxa": len(case["pop"]["labels"])}
+        return {"kind": k, "factory": case["which"], "ntaxa": len(case["pop"]["labels"]), "uc_vmat": _vf_short(case["args"].get("vf", "-"))}
     return {"kind": k}
 
 def gen_cases(rng, tier):
     q = tier == "quick"
-    cases = [{"kind": "classes"}, {"kind": "stub"}]
+    cases = [{"kind": "classes"}, {"kind": "stub"}, {"kind": "vmatfcty"}]
     per = 30 if q else 180
     for fam in FAMILIES:
         for _ in range(per):
@@ -1102,6 +1213,11 @@ def gen_cases(rng, tier):
                 cases.append(gen_guard(rng, fam, ["at", "inside", "outside", "tiny"][i % 4]))
         cases.append({"kind": "nlatent", "case": gen_latent(rng, fam)})
     for w in FACTORIES:
+        if w in ("uc", "uc_xmap"):                     # every variance-matrix factory, both constructors
+            for vf in sorted(UC_VMAT):
+                for _ in range(2 if q else 10):
+                    cases.append(gen_factory(rng, w, vf=vf))
+            continue
         for _ in range(6 if q else 40):
             cases.append(gen_factory(rng, w))
     return cases
